@@ -8,6 +8,7 @@ import SquidModel.Properties.C41
 #print axioms SquidModel.C41.parse_ok
 #print axioms SquidModel.C41.parse_invariant
 #print axioms SquidModel.C41.match_iff_partial
+#print axioms SquidModel.C41.match_any_shape
 #print axioms SquidModel.C41.match_order_irrelevant
 #print axioms SquidModel.C41.multi_dot_lost_value_counterexample
 #print axioms SquidModel.C41.multi_dot_dangling_counterexample
